@@ -281,3 +281,11 @@ ENGINES["abort"] = ("tests with plain asserts (a failing comparison ends the tes
 PROPS["C20"]["engines"].append(("multifile", {"quick": 40, "thorough": 800}))
 PROPS["C20"]["rule"] += (" ; plus real sessions over 2-3 files, some formatter-clean under a [tool.black] line-length of the project, a third of the sessions started from a directory "
                          "outside the project (harness/engines/multifile.py)")
+
+PROPS["C05"]["engines"].append(("seqedit", {"quick": 1000, "thorough": 30000}))
+PROPS["C05"]["rule"] += " ; plus " + SEQEDIT_RULE
+PROPS["C01"]["engines"].append(("mutate", {"quick": 600, "thorough": 15000}))
+PROPS["C01"]["rule"] += " ; plus the mutate engine: objects mutated in place after they were compared with an empty snapshot (the created value must hold for every comparison as it was observed)"
+
+PROPS["C08"]["engines"].append(("multifile", {"quick": 40, "thorough": 800}))
+PROPS["C08"]["rule"] += " ; plus real sessions over 2-3 files (create / fix of plain, HasRepr and outsourced values in one file): the same tests run again and pass"
